@@ -491,6 +491,11 @@ def cases(tier, seed):
             yield {"what": "type-name", "cls": "long-prefix:" + classify_string(tail), "name": s, "fields": ok_fields, "doors": ["ctor", "stream", "json", "avro-doc"]}
             yield {"what": "field-name", "cls": "long-prefix:" + classify_string(tail), "name": "ok/type", "fields": [["string", s]], "doors": ["ctor", "stream", "json", "avro-doc"]}
             yield {"what": "type-name", "cls": "long-prefix:" + classify_string(tail), "name": "ns/" * (n // 3) + "t" + tail, "fields": ok_fields, "doors": ["ctor", "stream"]}
+    # a Python-keyword field name (the generated class then takes *args/**kwargs) in front of, between and behind other candidates
+    for kw in ("from", "class", "lambda", "in"):
+        for s2 in ("_source", "_classification", "_generated", "_version", "_x", "__class__", "ok", "1a", "a b", "\u0430", "from", kw):
+            for fields in ([["string", kw], ["string", s2]], [["string", s2], ["string", kw]], [["string", "a"], ["string", kw], ["string", s2], ["string", "z"]]):
+                yield {"what": "field-name", "cls": "after-keyword:" + classify_string(s2), "name": "ok/type", "fields": fields, "doors": ["ctor", "stream", "json"]}
     # the same type-name candidates with an EMPTY field list (a record type without fields is legal)
     for s in payloads + ["ok/name", "a b", "a\nb", " padded ", "test/x\nuint32 injected", "test/x\n    string injected;", "x\ty", "a/b\n", "\na"]:
         yield {"what": "type-name", "cls": "no-fields:" + classify_string(s), "name": s, "fields": [], "doors": ["ctor", "stream", "json", "avro-doc"]}
